@@ -200,7 +200,7 @@ func c12WideGamut(css string) bool {
 var c12T0 = time.Now()
 
 func runC12(c *Check) {
-	c.Rule = "style sheets over a generated grammar: 37 selectors (type/class/id/attribute/pseudo, combinators, :is/:where/:not/:has, lists, deliberately unknown selectors) x ~180 declaration blocks in 7 families (colour notations, margin/padding/inset/border/border-radius/font/background shorthand-longhand interleavings, !important, duplicates and unknown-value fallbacks, custom properties, calc trees, numeric forms, gradients, transforms) as single rules, as interacting rule pairs within a family, as at-rule sandwiches W1{R} W2{R'} W1{R''} over 12 block wrappers (layers, media, supports, container, nesting), nested with & in every position and wrapped in 16 at-rule contexts (@media true/false/print, @supports true/false/unknown, @layer, @container, nested); x {default, minify, minify-syntax, chrome100 lowering, safari11+firefox60 lowering}; oracle: Chrome 147 computes every element x ~100 properties x 2 viewport widths for input and output, which must be equal; @import graphs loaded natively by Chrome vs the bundle; distinct = distinct outputs"
+	c.Rule = "style sheets over a generated grammar: 37 selectors (type/class/id/attribute/pseudo, combinators, :is/:where/:not/:has, lists, deliberately unknown selectors) x ~180 declaration blocks in 7 families (colour notations, margin/padding/inset/border/border-radius/font/background shorthand-longhand interleavings, !important, duplicates and unknown-value fallbacks, custom properties, calc trees, numeric forms, gradients, transforms) as single rules, as interacting rule pairs within a family, as at-rule sandwiches W1{R} W2{R'} W1{R''} over 12 block wrappers (layers, media, supports, container, nesting), under media conditions built from 19 width/feature atoms (both operand orders, ranges, min-/max-) with not/and/or/lists/nesting evaluated at 400px and 900px, nested with & in every position and wrapped in 16 at-rule contexts (@media true/false/print, @supports true/false/unknown, @layer, @container, nested); x {default, minify, minify-syntax, chrome100 lowering, safari11+firefox60 lowering}; oracle: Chrome 147 computes every element x ~100 properties x 2 viewport widths for input and output, which must be equal; @import graphs loaded natively by Chrome vs the bundle; distinct = distinct outputs"
 	c.Assump = []string{"Chrome 147 (headless shell) is the cascade/value engine; other browsers are not evaluated", "for lowering targets, sheets using wide-gamut or relative colour syntax are only compared under non-lowering configurations (out-of-gamut lowering excluded)", "the 'understands less' clause is decided through the unknown selectors/values/at-rules in the alphabet, which Chrome itself drops"}
 	pool := NewScriptPool("chrome_worker.js")
 	defer pool.Close()
@@ -313,6 +313,35 @@ func runC12(c *Check) {
 					add("@layer b, a; " + bw(w1, rr[0]) + " " + bw(w2, rr[1]) + " " + bw(w1, rr[0]))
 				}
 			}
+		}
+	}
+	// (4c) media conditions: the two frames are 400px and 900px wide, so every width comparison below has a known
+	// truth value in each; the minifier rewrites "not (a < b)" into "(a >= b)", drops redundant parentheses and merges
+	// identical nested conditions.
+	mqAtoms := []string{"(width < 500px)", "(width <= 400px)", "(width > 500px)", "(width >= 900px)", "(width = 400px)", "(500px > width)", "(400px >= width)", "(500px < width)", "(900px <= width)", "(400px = width)",
+		"(300px < width < 500px)", "(300px <= width <= 400px)", "(1000px > width >= 900px)", "(min-width: 500px)", "(max-width: 400px)", "(width: 400px)", "(width)", "(orientation: landscape)", "(unknown-feature: 1)"}
+	mqRule := " { .a { color: red; margin: 3px } }"
+	for i, a := range mqAtoms {
+		add("@media " + a + mqRule)
+		add("@media not " + a + mqRule)
+		add("@media screen and " + a + mqRule)
+		add("@media not screen and " + a + mqRule)
+		add("@media only screen and " + a + mqRule)
+		add("@media print, " + a + mqRule)
+		add("@media (not " + a + ")" + mqRule)
+		add("@media not (not " + a + ")" + mqRule)
+		add("@media " + a + " { @media " + a + " { .a { color: red } } .a { margin: 2px } }")
+		for j, b := range mqAtoms {
+			if quick && (i*3+j)%5 != 0 {
+				continue
+			}
+			add("@media " + a + " and " + b + mqRule)
+			add("@media " + a + " or " + b + mqRule)
+			add("@media not (" + a + " and " + b + ")" + mqRule)
+			add("@media not (" + a + " or " + b + ")" + mqRule)
+			add("@media (not " + a + ") and " + b + mqRule)
+			add("@media " + a + ", not " + b + mqRule)
+			add("@media " + a + " { @media " + b + " { .a { color: red } } }")
 		}
 	}
 	// (5) colour component grid (exact under non-lowering configurations)
